@@ -458,7 +458,10 @@ Proof.
       specialize (H HB HS Hwlo Hvlo ltac:(lia) Hu1 Hu2 Hv2 ltac:(lia) Hnorm ltac:(lia) Hq1 Hq2).
       split; [exact H|]. split; [lia|].
       pose proof (qhat_calc_le (B w) (u0 * B w + u1') u2 v1 v2).
-      assert ((u0 * B w + u1') / v1 < B w) by (apply Z.div_lt_upper_bound; nia). lia.
+      assert ((u0 * B w + u1') / v1 < B w).
+      { apply Z.div_lt_upper_bound; [lia|].
+        assert (u0 * B w <= (v1 - 1) * B w) by (apply Z.mul_le_mono_nonneg_r; lia). lia. }
+      lia.
     - pose proof (qhat_max_ok (B w) S (uval w wlo) (uval w vlo) u0 u1' u2 v1 v2 q) as H.
       cbv zeta in H. rewrite <- HW, <- HV in H.
       specialize (H ltac:(lia) HS Hwlo Hvlo Hge Hu1 Hu2 Hv2 ltac:(lia) Hnorm HWV ltac:(lia) Hq1 Hq2).
